@@ -881,4 +881,70 @@ theorem inv_run (c : Cfg) (s : State) (ops : List Op) (h : Inv c s) : Inv c (run
   | nil => exact h
   | cons op ops ih => exact ih (step c s op) (inv_step c s op h)
 
+/-! ## consequences used by the property theorems -/
+
+/-- the aggregate has ended: returned, or rethrew the stored exception -/
+def ended (s : State) : Prop := s.ag = Ag.done ∨ ∃ e, s.ag = Ag.failed e
+
+/-- the coroutine of source `k` has run to completion: end of its script, or its last act was a throw -/
+def srcEnded (c : Cfg) (s : State) (k : Nat) : Prop :=
+  c.script k (s.pc k) = none ∨ (0 < s.pc k ∧ ∃ e, c.script k (s.pc k - 1) = some (Act.throw e))
+
+theorem nWith_exists (p : SSt → Bool) (st : Nat → SSt) (n : Nat) (h : 0 < nWith p st n) :
+    ∃ k, k < n ∧ p (st k) = true := by
+  induction n with
+  | zero => simp [nWith] at h
+  | succ n ih =>
+    simp only [nWith] at h
+    by_cases hp : p (st n) = true
+    · exact ⟨n, by omega, hp⟩
+    · simp [hp] at h
+      obtain ⟨k, hk, hpk⟩ := ih h
+      exact ⟨k, by omega, hpk⟩
+
+theorem nWith_none (p : SSt → Bool) (st : Nat → SSt) (n : Nat) (h : ∀ k, k < n → p (st k) = false) :
+    nWith p st n = 0 := by
+  induction n with
+  | zero => rfl
+  | succ n ih => simp [nWith, h n (by omega), ih (fun k hk => h k (by omega))]
+
+theorem started_of_ag {c : Cfg} {s : State} (h : Inv1 c s) (h1 : s.ag ≠ Ag.init) (h2 : ¬ destructing s.ag) :
+    s.started = true := by
+  cases hs : s.started with
+  | true => rfl
+  | false => rcases (h.unstarted hs).2.2 with h | h <;> contradiction
+
+/-- when the aggregate has ended every source has been examined after it ended -/
+theorem ended_all_fin {c : Cfg} {s : State} (h : Inv c s) (he : ended s) (k : Nat) (hk : k < c.n) :
+    s.st k = SSt.fin := by
+  have hc := h.ctl.ended_cnt he
+  have hs : s.started = true := by
+    apply started_of_ag h.ctl <;> rcases he with h | ⟨e, h⟩ <;> simp [h, destructing]
+  have hz := nWith_zero active s.st c.n (by rw [← h.ctl.cntc hs]; exact hc) k hk
+  cases hst : s.st k <;> simp [hst, active] at hz
+  · rfl
+  · have := h.ctl.dropped_only k hst
+    rcases he with h | ⟨e, h⟩ <;> simp [h, destructing] at this
+
+theorem count_out_consumed (out : List (Nat × Nat)) (k v : Nat) :
+    out.count (k, v) = (((out.filter (fun p => p.1 == k)).map (·.2))).count v := by
+  induction out with
+  | nil => rfl
+  | cons p out ih =>
+    obtain ⟨a, b⟩ := p
+    by_cases ha : a = k
+    · subst ha
+      by_cases hb : b = v
+      · subst hb; simp [ih]
+      · have : ¬ (a, b) = (a, v) := by simp [hb]
+        simp [ih, hb]
+    · have : ¬ (a, b) = (k, v) := by simp [ha]
+      simp [ih, ha]
+
+theorem popHandle_not_ended (s : State) (h : ¬ ended s) : ¬ ended (popHandle s) := by
+  unfold popHandle
+  split
+  · exact h
+  · split <;> first | exact h | (unfold ended; simp)
+
 end Cocls.Agg
